@@ -95,11 +95,21 @@ func buildValid(fx *cat.Fixture, c caseA, now time.Time) (*s3c.Req, *cat.Entry, 
 		seed := r.Sign(o)
 		enc := s3c.EncodeChunked(payload, s3c.ChunkSpec{Mode: s3c.StreamingSigned, Sizes: []int{8}, Seed: seed, Secret: o.Creds.Secret, Region: gw.Region, Time: now})
 		r.Body = enc.Bytes
+		lastChunkData = [2]int{-1, -1}
+		for _, f := range enc.Fields {
+			if f.Kind == s3c.FData && f.End > f.Start {
+				lastChunkData = [2]int{f.Start, f.End}
+			}
+		}
 		return r, e, nil
 	}
 	r.Sign(o)
 	return r, e, nil
 }
+
+// lastChunkData: where the data of the last non-empty chunk of the most recently built aws-chunked body lies
+// (the chunk whose signature is only verified when the stream is read to its very end).
+var lastChunkData = [2]int{-1, -1}
 
 // resign recomputes the Authorization header of r for the given credentials / time /
 // scope overrides (used by defects that are "consistently signed but not acceptable").
@@ -298,6 +308,9 @@ func damage(r *s3c.Req, c caseA, now time.Time) {
 			b = []byte("injected body")
 		case c.Arg%4 == 3:
 			b = append(b, '\n') // still a well-formed XML / JSON document
+		case c.Arg%4 == 2 && c.Body == "chunked" && lastChunkData[0] >= 0 && lastChunkData[1] <= len(b):
+			// the data of the last chunk: everything after it (final chunk, its signature) stays intact
+			b[lastChunkData[0]+(c.Arg/4)%(lastChunkData[1]-lastChunkData[0])] ^= 0x20
 		default:
 			b[c.Arg%len(b)] ^= 0x20
 		}
